@@ -321,6 +321,43 @@ def r5(ctx):
                         '(an excluded, numbered row must keep both)', rf.loc())
 
 
+SHAPE_PROBES = [('circle', "['circle', 1]"), ('!circle', "['circle', 0]"), ('!ELLIPTANNULUS', "['elliptannulus', 0]"),
+                ('Polygon', "['polygon', 1]"), ('!rotbox', "['rotbox', 0]"), ('pie', "[None, 1]"), ('blob', 'raises FITSParserError')]
+
+
+def r5b(ctx):
+    """the SHAPE cell -> (shape key, include): partial evaluation of the reader's shape function on probe cells; a row
+    without a SHAPE column is a point."""
+    m = ctx.model
+    ser, row_writer, par, row_reader, rmod = _funcs(m)
+    gs = {fi.name: fi for fi in rmod.functions.values()}.get('get_shape')
+    ctx.need(gs is not None, 'fits read', 'shape function not found')
+    bad = []
+    for cell, want in SHAPE_PROBES:
+        row = Obj('Row', {'colnames': Tup((Const('SHAPE'), Const('X'), Const('Y')), 'list'),
+                          '__data__': DictV([{'SHAPE': Const(cell)}])}, None, None)
+        out = Evaluator(m).run(gs, [row], {})
+        if out.raises and not out.returns:
+            got = 'raises ' + str(out.raises[0][1])
+        elif len(out.returns) == 1:
+            got = show(out.returns[0][1], 120)
+        else:
+            got = f'{len(out.returns)} outcomes'
+        if got != want:
+            bad.append((cell, got, want))
+    row = Obj('Row', {'colnames': Tup((Const('X'), Const('Y')), 'list'), '__data__': DictV([{}])}, None, None)
+    out = Evaluator(m).run(gs, [row], {})
+    got = show(out.returns[0][1], 120) if len(out.returns) == 1 else '?'
+    if got != "['point', 1]":
+        bad.append(('<no SHAPE column>', got, "['point', 1]"))
+    if bad:
+        cell, got, want = bad[0]
+        ctx.bad('get_shape', 'shape-cell', f'SHAPE cell {cell!r} is read as {got}; it must be {want} (lower-cased key, include 0 '
+                f'exactly for a leading "!") — {len(bad)} of {len(SHAPE_PROBES) + 1} probes differ', gs.loc())
+    else:
+        ctx.ok('get_shape', f'{len(SHAPE_PROBES) + 1} probe cells: key lower-cased, "!" <-> include 0, unsupported -> skipped, unknown -> error')
+
+
 def r6(ctx):
     from ..fx import FX, param_name
     from .c13 import REVIEWED
@@ -545,6 +582,7 @@ RULES = [
     RuleDef('R3', 'column map agreement; alternative read notations', r3, 11),
     RuleDef('R4', 'skip discipline (sky / unsupported)', r4, 2),
     RuleDef('R5', 'include/component meta on read (4 combinations)', r5, 4),
+    RuleDef('R5b', 'SHAPE cell -> (shape key, include) on probe cells', r5b, 1),
     RuleDef('R6', 'serialisers do not mutate the regions', r6, 2),
     RuleDef('R7', 'fresh component numbers', r7, 1),
     RuleDef('R7b', 'filled COMPONENT column has a numeric dtype', r7b, 1),
